@@ -318,7 +318,7 @@ func hazards() []hazard {
 	// a file with CRLF line endings and a raw string that spans lines as the last
 	// token of an argument
 	add("crlf-file-with-multi-line-raw-string-argument", "accept",
-		"import (\n\t\"context\"\n\n\t\"go.uber.org/cff\"\n)\n\nfunc Run(ctx context.Context, n int) (string, error) {\n\tvar out string\n\terr := cff.Flow(ctx,\n\t\tcff.Params(n, `first\nsecond`),\n\t\tcff.Results(&out),\n\t\tcff.Task(func(i int, s string) (string, error) { return s + string(rune('a'+i%26)), nil }),\n\t)\n\treturn out, err\n}\n", nil)
+		"import (\n\t\"context\"\n\n\t\"go.uber.org/cff\"\n)\n\nfunc Run(ctx context.Context, n int) (int64, error) {\n\tvar out int64\n\terr := cff.Flow(ctx,\n\t\tcff.Params(n, `first\nsecond`),\n\t\tcff.Results(&out),\n\t\tcff.Task(func(i int, s string) (int64, error) { return int64(len(s) + i), nil }),\n\t)\n\treturn out, err\n}\n", nil)
 	hs[len(hs)-1].Files["p.go"] = strings.ReplaceAll(hs[len(hs)-1].Files["p.go"], "\n", "\r\n")
 	// signatures at the edge of what cff supports: whatever it decides, it must
 	// not accept them and then write code that does not compile
